@@ -7,6 +7,7 @@
      Iri n    a lexical value with an IRI scheme (`scheme:rest`)            - "absolute IRI"
      Plain n  any other lexical value (literal values, numbers, relative IRIs, the bare word `a`)
      Bn k l   a blank node: k = 0 is `_:u<l>` as loaded, k > 0 is `_:kolibrie-update-<k>-u<l>`
+     Qt s p o a quoted triple `<< s p o >>` (RDF-star), nested to any depth
    "Illegal position" (a quad dropped from a template) is the store's own classification of a
    bound value, evaluated on the pre-operation dataset (legal_subject / legal_predicate /
    legal_graph below).
@@ -24,14 +25,22 @@ Export ListNotations.
 Open Scope N_scope.
 
 (* ---------- terms and quads ---------- *)
-Inductive term := Iri (n : N) | Plain (n : N) | Bn (k l : N).
+Inductive term := Iri (n : N) | Plain (n : N) | Bn (k l : N) | Qt (s p o : term).
 
-Definition term_eqb (a b : term) : bool :=
+Fixpoint term_eqb (a b : term) : bool :=
   match a, b with
   | Iri x, Iri y => N.eqb x y
   | Plain x, Plain y => N.eqb x y
   | Bn k l, Bn k' l' => N.eqb k k' && N.eqb l l'
+  | Qt s p o, Qt s' p' o' => term_eqb s s' && term_eqb p p' && term_eqb o o'
   | _, _ => false
+  end.
+
+(* the dictionary entries a term is made of *)
+Fixpoint atoms (t : term) : list term :=
+  match t with
+  | Qt s p o => atoms s ++ atoms p ++ atoms o
+  | _ => [t]
   end.
 
 Definition rdf_type : term := Iri 0.      (* http://www.w3.org/1999/02/22-rdf-syntax-ns#type *)
@@ -39,6 +48,7 @@ Definition a_word : term := Plain 0.      (* the lexical value `a` *)
 
 Definition is_bn (t : term) : bool := match t with Bn _ _ => true | _ => false end.
 Definition is_abs (t : term) : bool := match t with Iri _ => true | _ => false end.
+Definition is_qt (t : term) : bool := match t with Qt _ _ _ => true | _ => false end.
 
 Definition quad := (term * term * term * option term)%type.   (* subject predicate object graph; None = default graph *)
 Definition qs (q : quad) : term := fst (fst (fst q)).
@@ -78,15 +88,26 @@ Definition graph_names (l : list quad) : list term :=
 (* ---------- the store's classification of bound values ---------- *)
 Definition graph_exists (D : dataset) (g : term) : bool :=
   tmem g (dc D) || existsb (fun q => ograph_eqb (qg q) (Some g)) (dq D).
-Definition legal_subject (D : dataset) (t : term) : bool :=
+Definition base_subject (D : dataset) (t : term) : bool :=
   is_bn t || is_abs t || graph_exists D t || existsb (fun q => term_eqb (qs q) t) (dq D).
 Definition legal_predicate (D : dataset) (t : term) : bool :=
-  negb (is_bn t) && (is_abs t || graph_exists D t || existsb (fun q => term_eqb (qp q) t) (dq D)).
+  negb (is_qt t) && negb (is_bn t) && (is_abs t || graph_exists D t || existsb (fun q => term_eqb (qp q) t) (dq D)).
+(* a quoted triple is legal when its subject, predicate and object are (is_legal_quoted_triple) *)
+Fixpoint legal_so (D : dataset) (subj : bool) (t : term) : bool :=
+  match t with
+  | Qt s p o => legal_so D true s && legal_predicate D p && legal_so D false o
+  | _ => if subj then base_subject D t else true
+  end.
+Definition legal_subject (D : dataset) (t : term) : bool := legal_so D true t.
+Definition legal_object (D : dataset) (t : term) : bool := legal_so D false t.
 Definition legal_graph (D : dataset) (t : term) : bool :=
-  negb (is_bn t) && (is_abs t || graph_exists D t).
+  negb (is_qt t) && negb (is_bn t) && (is_abs t || graph_exists D t).
 
 (* ---------- templates ---------- *)
-Inductive tterm := TVar (v : N) | TConst (t : term) | TBnode (l : N) | TKwA.   (* TKwA: the keyword `a` *)
+Inductive tterm :=
+| TVar (v : N) | TConst (t : term) | TBnode (l : N)
+| TKwA                                   (* the keyword `a` *)
+| TQuoted (s p o : tterm).               (* << s p o >> *)
 Inductive tgraph := GDefault | GVar (v : N) | GConst (t : term) | GInvalid.     (* GInvalid: a lexeme that is no IRI / variable *)
 Record tquad := TQ { tq_s : tterm; tq_p : tterm; tq_o : tterm; tq_g : tgraph }.
 
@@ -98,34 +119,47 @@ Fixpoint lookup {B} (v : N) (sol : list (N * B)) : option B :=
   end.
 
 Definition is_tvar (t : tterm) : bool := match t with TVar _ => true | _ => false end.
-Definition is_tbnode (t : tterm) : bool := match t with TBnode _ => true | _ => false end.
+Fixpoint has_tbnode (t : tterm) : bool :=
+  match t with TBnode _ => true | TQuoted s p o => has_tbnode s || has_tbnode p || has_tbnode o | _ => false end.
+Fixpoint has_tvar (t : tterm) : bool :=
+  match t with TVar _ => true | TQuoted s p o => has_tvar s || has_tvar p || has_tvar o | _ => false end.
 
-(* instantiation of one template term; `kwa` is the meaning of the keyword `a` in predicate position *)
-Definition s_term (sol : solution) (bnf : N -> term) (t : tterm) : option term :=
+(* instantiation of one template term; `kwa` is the meaning of the keyword `a` in predicate position
+   (pred = true: the term stands in predicate position of a template quad or of a quoted triple) *)
+Fixpoint s_term_gen (kwa : term) (pred : bool) (sol : solution) (bnf : N -> term) (t : tterm) : option term :=
   match t with
   | TVar v => lookup v sol
   | TConst c => Some c
   | TBnode l => Some (bnf l)
-  | TKwA => Some a_word
-  end.
-Definition s_pred (kwa : term) (sol : solution) (bnf : N -> term) (t : tterm) : option term :=
-  match t with
-  | TKwA => Some kwa
-  | _ => s_term sol bnf t
+  | TKwA => Some (if pred then kwa else a_word)
+  | TQuoted s p o =>
+    match s_term_gen kwa false sol bnf s with
+    | None => None
+    | Some s' =>
+      match s_term_gen kwa true sol bnf p with
+      | None => None
+      | Some p' =>
+        match s_term_gen kwa false sol bnf o with
+        | None => None
+        | Some o' => Some (Qt s' p' o')
+        end
+      end
+    end
   end.
 
 Definition s_quad_gen (kwa : term) (D : dataset) (sol : solution) (bnf : N -> term) (q : tquad) : option quad :=
-  match s_term sol bnf (tq_s q) with
+  match s_term_gen kwa false sol bnf (tq_s q) with
   | None => None
   | Some s =>
-    if is_tvar (tq_s q) && negb (legal_subject D s) then None else
-    match s_pred kwa sol bnf (tq_p q) with
+    if (is_tvar (tq_s q) || is_qt s) && negb (legal_subject D s) then None else
+    match s_term_gen kwa true sol bnf (tq_p q) with
     | None => None
     | Some p =>
       if is_tvar (tq_p q) && negb (legal_predicate D p) then None else
-      match s_term sol bnf (tq_o q) with
+      match s_term_gen kwa false sol bnf (tq_o q) with
       | None => None
       | Some o =>
+        if is_qt o && negb (legal_object D o) then None else
         match tq_g q with
         | GDefault => Some (s, p, o, None)
         | GConst g => Some (s, p, o, Some g)
@@ -201,8 +235,8 @@ Section Update.
 
   (* which operation trees are well formed (anything else is rejected) *)
   Definition tq_has_var (q : tquad) : bool :=
-    is_tvar (tq_s q) || is_tvar (tq_p q) || is_tvar (tq_o q) || match tq_g q with GVar _ => true | _ => false end.
-  Definition tq_has_bnode (q : tquad) : bool := is_tbnode (tq_s q) || is_tbnode (tq_p q) || is_tbnode (tq_o q).
+    has_tvar (tq_s q) || has_tvar (tq_p q) || has_tvar (tq_o q) || match tq_g q with GVar _ => true | _ => false end.
+  Definition tq_has_bnode (q : tquad) : bool := has_tbnode (tq_s q) || has_tbnode (tq_p q) || has_tbnode (tq_o q).
   Definition tq_graph_ok (q : tquad) : bool := match tq_g q with GInvalid => false | _ => true end.
 
   Definition well_formed (u : update) : bool :=
@@ -215,8 +249,10 @@ Section Update.
     end.
 
   (* blank nodes are fresh per solution: injective in (solution, label), blank, and not a term of the dataset *)
-  Definition term_in_dataset (t : term) (D : dataset) : Prop :=
-    In t (dc D) \/ exists q, In q (dq D) /\ (qs q = t \/ qp q = t \/ qo q = t \/ qg q = Some t).
+  (* t is a dictionary entry some term of the dataset is made of *)
+  Definition top_term (u : term) (D : dataset) : Prop :=
+    In u (dc D) \/ exists q, In q (dq D) /\ (qs q = u \/ qp q = u \/ qo q = u \/ qg q = Some u).
+  Definition term_in_dataset (t : term) (D : dataset) : Prop := exists u, top_term u D /\ In t (atoms u).
   Definition fresh_bn (bn : nat -> N -> term) (D : dataset) : Prop :=
     (forall i l, is_bn (bn i l) = true /\ ~ term_in_dataset (bn i l) D) /\
     (forall i l i' l', bn i l = bn i' l' -> i = i' /\ l = l').
